@@ -575,13 +575,15 @@ impl<E: Elem> World<E> {
             if live > reach && live - reach <= deferred {
                 // may still be owned by iterators that were told to skip them
             } else if live > reach {
+                // what the live iterators may still own is neither a leak nor forgiven
+                let excess = live - reach - deferred;
                 if cx.checks.conserve && !(cx.checks.leak_ok_after_drop_fault && fault_drop_fired) {
                     fail(
                         "I4-leak",
                         format!("{} zero-sized elements are live but only {} are reachable from the pool", live, reach),
                     );
                 } else if leak_ok {
-                    ledger::forgive_zt_leaks(live - reach);
+                    ledger::forgive_zt_leaks(excess);
                 }
             } else if live < reach {
                 fail(
